@@ -81,6 +81,8 @@ def smt_section_number():
 def smt_obligations(tier):
     return [ZOb("C17.smt_section_number", smt_section_number, "_calculate_section_number(i) == (i+1)//2 for all i >= 0; 'found' in next_section == number of the last chunk for every odd parts length")]
 
+CANARIES = {'harness/C17_sections.py': 'stub_canary()'}   # harness file -> native call that must return True, else its stubs are dead
+
 
 def obligations(tier):
     obs = []
